@@ -12,6 +12,8 @@ pub fn cells(tier: Tier) -> Vec<CellPlan> {
     for vis in [Vis::Blacklist, Vis::Whitelist] {
         // one client: the full visibility alphabet, per-frame wire scan, query oracle, closure
         let mut c = cells::visibility("C08", vis, 1);
+        // (acknowledgements may arrive late: after the entity was hidden again)
+        c.env.hold_acks = true;
         c.oracles = Oracles { c08: true, c01: true, c03: true, ..Default::default() };
         c.rounds = if q { 3 } else { 4 };
         v.push(plan(c, if q { 1 } else { 2 }, 2.0));
